@@ -36,6 +36,8 @@ def run(ck):
     ck.assumptions += ['torch.sort sorts (any tie order); torch.median returns the lower median',
                        'slack e = d*2^-20*(max sum|x_i v_i| + |b|) covers float32 rounding of projections; rows within 2e of a threshold are excluded and counted']
     ck.check_theorems()
+    from harness import splitarith
+    splitarith.check_translation(ck)
     rng = np.random.default_rng(ck.seed + 808)
     nfits = ck.n(20, 160)
     cases = []
